@@ -14,7 +14,7 @@ import vlib
 DEV = "await-weight-not-scheduled"
 INVS = {
     "C08": {"AtTrigger", "Ordered", "Barrier", "OnceOrCancelled"},
-    "C09": {"CancelBefore", "KeepAfter", "NonCriticalSilent", "OnlyCriticalFailuresAffect", "CriticalFailureReported"},
+    "C09": {"CancelBefore", "KeepAfter", "NonCriticalSilent", "OnlyCriticalFailuresAffect", "CriticalFailureReported", "Returns"},
     "C10": {"SetBetween", "Stable", "Gone", "StampOrder", "NoLeak", "EndExactlyOnce", "SetOnce"},
 }
 TEV = {"START_ACTIVITY": "START", "STOP_ACTIVITY": "STOP", "RESET": "RESET", "CONFIGURE": "CONFIGURE"}
@@ -37,7 +37,8 @@ TASK_ENDS = {"ok": {"hook_exit": 0, "hook_voluntary": True}, "exit1": {"hook_exi
              "exit3killed": {"hook_exit": 3, "hook_voluntary": False}, "silent": {"hook_silent": True}}
 
 
-def scenario(sid, case, gate=None, timeout="5s", gap_ms=0, pad=False, taskhook=None, nonumber=False):
+def scenario(sid, case, gate=None, timeout="5s", gap_ms=0, pad=False, taskhook=None, nonumber=False, blank=None, both=False):
+    # blank: "empty" / "absent" - how an await that equals the trigger is spelled (default: written out)
     """pad: weights spelled with leading zeros (+005); taskhook = (end_if_fails, end_if_ok): hook h1 is a hook TASK, not a call."""
     cls = "ehs%dt1" % sid
     roles = cs.role_task("t1", cls)
@@ -45,18 +46,30 @@ def scenario(sid, case, gate=None, timeout="5s", gap_ms=0, pad=False, taskhook=N
     files_extra, scripts = {}, []
     ex = (lambda m, w: "%s%+04d" % (m, w)) if pad else expr
     for h in sorted(case["hooks"], key=lambda x: x["id"]):
-        if taskhook and h["id"] == "h1":
-            hcls = "ehs%dh1" % sid
+        if taskhook and (h["id"] == "h1" or both):
+            hcls = "ehs%d%s" % (sid, h["id"])
             files_extra["tasks/%s.yaml" % hcls] = cs.task_class(hcls, mode="hook")
-            roles += cs.role_task("h1", hcls, critical=h["crit"], trigger=ex(h["tm"], h["tw"]), await_=ex(h["am"], h["aw"]),
+            roles += cs.role_task(h["id"], hcls, critical=h["crit"], trigger=ex(h["tm"], h["tw"]), await_=ex(h["am"], h["aw"]),
                                   timeout="1s" if taskhook[0] == "silent" else timeout)
             scripts.append(dict({"class": hcls}, **TASK_ENDS[taskhook[0] if h["fails"] else taskhook[1]]))
             continue
-        roles += cs.role_call(h["id"], h["id"], ex(h["tm"], h["tw"]), ex(h["am"], h["aw"]), critical=h["crit"], timeout=timeout)
+        aw = ex(h["am"], h["aw"])
+        if blank and (h["tm"], h["tw"]) == (h["am"], h["aw"]):
+            aw = "" if blank == "empty" else None
+        roles += cs.role_call(h["id"], h["id"], ex(h["tm"], h["tw"]), aw, critical=h["crit"], timeout=timeout)
         b = {"outcome": "fail" if h["fails"] else "ok"}
         if gate == h["id"]:
             b["gate"] = "G"
         hooks[h["id"]] = b
+    if taskhook and both:
+        # company: ten more hook tasks at the same step, non-critical, hanging like the others - their timeouts fire with the
+        # same deadline, while the collector is busy with the first ones (they are not part of the model: non-critical, silent)
+        h1 = next(h for h in case["hooks"] if h["id"] == "h1")
+        for k in range(10):
+            xcls = "ehs%dx%d" % (sid, k)
+            files_extra["tasks/%s.yaml" % xcls] = cs.task_class(xcls, mode="hook")
+            roles += cs.role_task("x%d" % k, xcls, critical=False, trigger=ex(h1["tm"], h1["tw"]), await_=ex(h1["am"], h1["aw"]), timeout="1s")
+            scripts.append({"class": xcls, "hook_silent": True})
     wf = "ehwf%d" % sid
     steps = [{"do": "create", "env": "e1", "wf": wf}]
     if nonumber:
@@ -76,6 +89,8 @@ def scenario(sid, case, gate=None, timeout="5s", gap_ms=0, pad=False, taskhook=N
     if nonumber:
         steps.append({"do": "kvfault", "kind": "off"})
     steps += [{"do": "destroy", "env": "e1", "force": True}, {"do": "settle", "ms": 20}]
+    if not gate and not gap_ms:
+        steps.append({"do": "pendingcalls"})
     pred = case["pred"]
     if nonumber:
         pred = [{"ev": ev, "ok": False, "st": "ERROR"} for ev in case["plan"]]
@@ -143,6 +158,8 @@ def project(lines):
             elif ev == "ApiReply" and ln.get("call") == "control":
                 out.append({"ev": "Reply", "scn": scn, "op": ln["op"], "code": ln["code"], "st": ln.get("st", ""), "rn": ln.get("rn", 0),
                             "named": sorted(set(re.findall(r"hook (h[0-9]+)", ln.get("errtext", ""))))})
+            elif ev == "Pending":
+                out.append({"ev": "Pending", "scn": scn, "n": ln["n"]})
             elif ev == "End":
                 out.append({"ev": "End", "scn": scn})
     return out
@@ -242,6 +259,15 @@ def run_family(ctx, pid):
         sid += 1
         ntask += 1
         scenarios.append(scenario(sid, c, taskhook=("silent", "ok")))
+    # several hook tasks of one (trigger, weight) step that all hang: their timeouts fire together
+    def same_point(c):
+        h1, h2 = (next(h for h in c["hooks"] if h["id"] == i) for i in ("h1", "h2"))
+        return ((h1["tm"], h1["tw"]) == (h2["tm"], h2["tw"]) == (h1["am"], h1["aw"]) == (h2["am"], h2["aw"]) and h1["fails"] and h2["fails"]
+                and c["plan"] == ["START_ACTIVITY", "STOP_ACTIVITY"] and not c["bodyfails"])
+    for c in [x for x in cases if same_point(x)][:(3 if quick else 8)]:
+        sid += 1
+        ntask += 1
+        scenarios.append(scenario(sid, c, taskhook=("silent", "ok"), both=True))
     for c in gated:
         sid += 1
         scenarios.append(scenario(sid, c, gate="h1"))
@@ -252,6 +278,11 @@ def run_family(ctx, pid):
     for s in scenarios:
         ctx.count_case(json.dumps(s["model"], sort_keys=True), nontrivial=True)
     ctx.exhaustive = False
+    # an await equal to the trigger may be left blank or out
+    for c in single + single_ok[:(8 if quick else 40)]:
+        for how in ("empty", "absent"):
+            sid += 1
+            scenarios.append(scenario(sid, c, blank=how))
     nn = 0
     for c in single_ok[:(6 if quick else 20)] + second_run[:2]:
         sid += 1
@@ -294,6 +325,19 @@ def judge(ctx, pid, scenarios, lines):
             raise vlib.Inconclusive("%d of %d scenarios ran into a client-side deadline" % (len(cut), len(scenarios)))
         viol = [v for v in viol if v[2] not in cut]
         ctx.drift = [d for d in ctx.drift if d.get("scn") not in cut]
+        # ... unless it does so again on a core of its own: then the request really does not come back (C09: failing or timed-out
+        # hooks are reported "without harming the core")
+        if pid == "C09" and not getattr(ctx, "_rerun_cut", False):
+            ctx._rerun_cut = True
+            again = [dict(by_id[i], isolated=True) for i in sorted(cut) if i in by_id][:4]
+            lines2 = cs.run_scenarios(ctx, again, timeout=600)
+            cut2 = {ln.get("scn") for ln in lines2 if (ln.get("ev") == "ApiReply" and ln.get("timeout")) or (ln.get("ev") == "Awaited" and ln.get("returned") is False)}
+            for i in sorted(cut2 - {None}):
+                m = by_id[i].get("model", {})
+                ctx.add_violation({"inv": "Returns", "scn": i, "gated": bool(m.get("gate")), "same_moment_later_weight": False, "h1": "",
+                                   "detail": "a request did not return within the client's deadline, twice (second time on a core of its own)",
+                                   "forced_error": False, "cls": "hang", "family": by_id[i].get("family", "")},
+                                  replay_obj={"scenario": by_id[i], "trace": [l for l in lines2 if l.get("scn") == i]})
     for v in viol:
         inv, scn = v[1], v[2]
         if (inv, scn) in seen:
